@@ -1103,29 +1103,36 @@ Qed.
 (* ------------------------------------------------------------------ refutations and witnesses *)
 Local Open Scope float_scope.
 
-(* F25: the CURRENT expression 100.0 * work / total leaves [0,100] for non-decreasing finite counters *)
+(* F25 (fixed in /repo): the OLD expression 100.0 * work / total leaves [0,100] for non-decreasing finite
+   counters.  Kept as statements about cpu_pct_current, so that a regression to it is explained. *)
 Definition f25_latest : jiffies := (0x1.baedf1e8837c2p+14, 0).
 Definition f25_ref : jiffies := (0, 0).
 
-Theorem cpu_in_range_refuted :
+Theorem old_expression_refuted :
   exists latest ref, counters_ok latest ref = true
                      /\ cpu_in_range (cpu_one_with cpu_pct_current latest ref) = false.
 Proof. exists f25_latest, f25_ref. vm_compute. split; reflexivity. Qed.
 
 (* ... and overflows to +infinity when 100.0 * work does (work >= 1.8e306) *)
-Theorem cpu_in_range_refuted_overflow :
+Theorem old_expression_refuted_overflow :
   exists latest ref, counters_ok latest ref = true
                      /\ f_is_finite (cpu_one_with cpu_pct_current latest ref) = false.
 Proof. exists (0x1p+1020, 0), (0, 0). vm_compute. split; reflexivity. Qed.
 
-(* the same inputs with the fixed expression *)
-Example cpu_fixed_on_witnesses :
-  cpu_one_with cpu_pct_fixed f25_latest f25_ref = 0x1.9p+6
-  /\ cpu_one_with cpu_pct_fixed (0x1p+1020, 0) (0, 0) = 0x1.9p+6.
+(* the same inputs with the expression of the model (= /repo since the fix) *)
+Example cpu_model_on_old_witnesses :
+  cpu_one f25_latest f25_ref = 0x1.9p+6 /\ cpu_one (0x1p+1020, 0) (0, 0) = 0x1.9p+6.
 Proof. vm_compute. split; reflexivity. Qed.
 
-(* whether the model (hence /repo, by the correspondence) currently uses the refuted expression *)
-Definition model_cpu_leaves_range : bool := negb (cpu_in_range (cpu_one f25_latest f25_ref)).
+(* cpu_process_statistics (module-level function, not called by the statistics classes) still has the
+   shape 100.0 * (latest - ref) / host_work: one ulp above 100 when the process work equals the host work *)
+Theorem cpu_process_statistics_refuted :
+  exists latest ref host v, proc_counters_ok latest ref host = true
+    /\ cpu_process_statistics latest ref host = Ok v /\ cpu_in_range v = false.
+Proof.
+  exists 0x1.baedf1e8837c2p+14, 0, 0x1.baedf1e8837c2p+14, 0x1.9000000000001p+6.
+  vm_compute. repeat split; reflexivity.
+Qed.
 
 Definition hs (now : float) (cpu : list jiffies) (net : alist counters) : hsample := mkHS now cpu 1 net [] [].
 
